@@ -8,18 +8,19 @@ mkdir -p "$DEST"
 cp "$SRC/patch.diff" "$SRC/demo.py" "$DEST/" 2>/dev/null
 [ -f "$SRC/meta.json" ] && cp "$SRC/meta.json" "$DEST/agent_meta.json"
 W=$(mktemp -d /tmp/gm-seed.XXXXXX)
+T=$(mktemp -d /tmp/gm-seedtmp.XXXXXX)
 git -C /repo worktree add -q --detach "$W" HEAD || exit 2
 mkdir -p "$W/_seed"; cp "$DEST/demo.py" "$W/_seed/demo.py"
-( cd "$W" && /venv/bin/python _seed/demo.py "$W" >/tmp/demo_clean.out 2>&1 ); RC_CLEAN=$?
+( cd "$W" && /venv/bin/python _seed/demo.py "$W" >$T/demo_clean.out 2>&1 ); RC_CLEAN=$?
 git -C "$W" apply "$DEST/patch.diff" || { echo "PATCH DOES NOT APPLY"; git -C /repo worktree remove --force "$W"; exit 2; }
-( cd "$W" && /venv/bin/python _seed/demo.py "$W" >/tmp/demo_patched.out 2>&1 ); RC_PATCHED=$?
-/verif/tools/repo_tests.sh "$W" > /tmp/seed_tests.out 2>&1; RC_TESTS=$?
-echo "demo clean rc=$RC_CLEAN ($(tail -1 /tmp/demo_clean.out | cut -c1-80)) | demo patched rc=$RC_PATCHED ($(tail -1 /tmp/demo_patched.out | cut -c1-120)) | tests rc=$RC_TESTS ($(head -1 /tmp/seed_tests.out))"
+( cd "$W" && /venv/bin/python _seed/demo.py "$W" >$T/demo_patched.out 2>&1 ); RC_PATCHED=$?
+/verif/tools/repo_tests.sh "$W" > $T/seed_tests.out 2>&1; RC_TESTS=$?
+echo "demo clean rc=$RC_CLEAN ($(tail -1 $T/demo_clean.out | cut -c1-80)) | demo patched rc=$RC_PATCHED ($(tail -1 $T/demo_patched.out | cut -c1-120)) | tests rc=$RC_TESTS ($(head -1 $T/seed_tests.out))"
 RES=""
 for P in "$@"; do
-  VERIF_OUT_DIR="$W/_verif_out" VERIF_REPO="$W" /venv/bin/python /verif/run_check.py "$P" --tier ${TIER:-quick} >/tmp/seed_check.out 2>/tmp/seed_check.err; rc=$?
-  echo "  $P rc=$rc  $(grep -m1 '^violation' /tmp/seed_check.err | cut -c1-260)"
+  VERIF_OUT_DIR="$W/_verif_out" VERIF_REPO="$W" /venv/bin/python /verif/run_check.py "$P" --tier ${TIER:-quick} >$T/seed_check.out 2>$T/seed_check.err; rc=$?
+  echo "  $P rc=$rc  $(grep -m1 '^violation' $T/seed_check.err | cut -c1-260)"
   RES="$RES $P=$rc"
 done
-git -C /repo worktree remove --force "$W"; rm -rf "$W"
+git -C /repo worktree remove --force "$W"; rm -rf "$W" "$T"
 echo "{\"seed\": \"$ID\", \"demo_clean_rc\": $RC_CLEAN, \"demo_patched_rc\": $RC_PATCHED, \"repo_tests_rc\": $RC_TESTS, \"checks\": \"$RES\", \"tier\": \"${TIER:-quick}\"}" > "$DEST/confirm.json"
